@@ -177,12 +177,18 @@ def oracle(case, out):
     laws = [('density', c['density'], b['density'] / k**3), ('dtracer', c['dtracer'], b['dtracer'] * k * k), ('dcom', c['dcom'], b['dcom'] * k * k),
             ('vib', c['vib'], b['vib'] * k), ('freq', c['freq'], b['freq']), ('haven', c['haven'], b['haven']),
             ('conduct', c['conduct'], b['conduct'] / k)]
+    # the vibration amplitude is the spread of the per-atom amplitudes: when they all agree it is rounding noise of their size, not a small number
+    amp_scale = max([abs(x) for x in np.ravel(b.get('amps') or [0.0])] + [0.0])
     for name, got, want in laws:
+        if name == 'vib' and abs(got - want) <= 1e-9 * k * amp_scale:
+            continue
         if not _close(got, want, 1e-8):
             fs.append((f'scaling/cell:{name}', f'scaling the cell by {k}: {name} = {got}, expected {want}'))
     laws = [('dtracer', t['dtracer'], b['dtracer'] / s), ('freq', t['freq'], b['freq'] / s), ('density', t['density'], b['density']),
             ('vib', t['vib'], b['vib']), ('conduct', t['conduct'], b['conduct'] / s)]
     for name, got, want in laws:
+        if name == 'vib' and abs(got - want) <= 1e-9 * amp_scale:
+            continue
         if not _close(got, want, 1e-8):
             fs.append((f'scaling/time:{name}', f'scaling the time step by {s}: {name} = {got}, expected {want}'))
     for name_, st in (('sub-trajectories', out['std']), ('trajectories of different cell volume and temperature', out.get('het'))):
